@@ -91,15 +91,26 @@ def scenarios(tier):
                     "unpacked_array_other_shape", "param_removed", "param_added", "fixed_type_changed"):
         out.append(dict(kind="foreign", lengths={"b": 2}, rep_max=2, fmt="res", delete=False,
                         keep=["true", 0], variant=variant, budget=[1, 0, 1], torn="coarse", calls="all"))
+    # restart with the SAME parameters, given to the restarted runner in another insertion order
+    # (what a restart in a fresh process with another string-hash seed can produce on its own)
+    for no_unpack in (False, True):
+        out.append(dict(kind="foreign", lengths={"b": 2}, rep_max=2, fmt="res", delete=False, keep=["true", 0],
+                        variant="same_other_insertion_order", no_unpack=no_unpack, budget=[1, 0, 1],
+                        torn="coarse", calls="all"))
     return out
 
 
 def grid_for(sc, run_no):
     from models import runner_model as RM
     pd, unpacked = RM.make_grid(sc["lengths"])
+    if sc.get("no_unpack"):
+        unpacked = []           # the list-valued parameter stays one fixed parameter
     rep_max = sc["rep_max"]
     if run_no >= 1:
         v = sc["variant"]
+        if v == "same_other_insertion_order":
+            pd = dict(reversed(list(pd.items())))
+            unpacked = unpacked[::-1]
         if v == "rep_max+1":
             rep_max += 1
         elif v == "fixed_changed":
@@ -370,13 +381,17 @@ def judge_foreign(sc, S, chk, case, status, dur, before_img, runner, idxs, nvar,
     from models import runner_model as RM
     v = sc["variant"]
     pd0, unpacked0 = RM.make_grid(sc["lengths"])
+    if sc.get("no_unpack"):
+        unpacked0 = []
     old_vars = RM.variations(RM._plain(pd0), unpacked0)
     have = [i for i in idxs if dur[i][0] == "complete"]
-    if v == "rep_max+1":
+    if v in ("rep_max+1", "same_other_insertion_order"):
         if status != "completed":
-            chk.fail(("foreign", v, "refused"), case, observed=repr(status), expected="resumes up to the new rep_max")
+            chk.fail(("foreign", v, "refused"), case, observed=repr(status),
+                     expected="resumes up to the new rep_max" if v == "rep_max+1" else
+                     "resumes: the parameters are the same, only their insertion order differs")
             return ("foreign", v, "raised")
-        judge_completed(sc, S, chk, case, runner, dur, idxs, sc["rep_max"] + 1, S.run_no)
+        judge_completed(sc, S, chk, case, runner, dur, idxs, sc["rep_max"] + (v == "rep_max+1"), S.run_no)
         return ("foreign", v, "resumed")
     changed = []
     for i in have:
